@@ -64,6 +64,7 @@ def showRes (st : St) : AddRes → String
   | .none => "none"
   | .ev .firstShred => "none"   -- the trait method returns `Ok(None)`; the event goes to Votor
   | .ev e => showEvent st e
+  | .err .wrongType => "wrongtype"
   | .err .duplicate => "dup"
   | .err .equivocation => "equiv"
   | .err .invalidShred => "invalidshred"
